@@ -6,7 +6,7 @@ use lsp_types::{
     GotoDefinitionParams, Location,
 };
 use spl_frontend::{
-    table::{DataType, Entry, GlobalEntry, LookupTable, SymbolTable},
+    table::{DataType, Entry, GlobalEntry, SymbolTable},
     ToRange, ToTextRange,
 };
 use tokio::sync::mpsc::Sender;
@@ -41,11 +41,7 @@ pub async fn declaration(
                         }
                     }
                     GlobalEntry::Procedure(p) => {
-                        let lookup_table = LookupTable {
-                            global_table: Some(&doc.table),
-                            local_table: Some(&p.local_table),
-                        };
-                        if let Some(entry) = lookup_table.lookup(&ident.value) {
+                        if let Some(entry) = super::lookup_ident(&doc, p, ident) {
                             // early return for default values
                             if entry.is_default() {
                                 return Ok(None);
@@ -112,11 +108,7 @@ pub async fn type_definition(
                         }
                     }
                     GlobalEntry::Procedure(p) => {
-                        let lookup_table = LookupTable {
-                            global_table: Some(&doc.table),
-                            local_table: Some(&p.local_table),
-                        };
-                        if let Some(entry) = lookup_table.lookup(&ident.value) {
+                        if let Some(entry) = super::lookup_ident(&doc, p, ident) {
                             match &entry {
                                 Entry::Type(t) => {
                                     // early return for int;
@@ -178,11 +170,7 @@ pub async fn implementation(
             if let Some(entry) = context {
                 match &entry {
                     GlobalEntry::Procedure(p) => {
-                        let lookup_table = LookupTable {
-                            global_table: Some(&doc.table),
-                            local_table: Some(&p.local_table),
-                        };
-                        if let Some(entry) = lookup_table.lookup(&ident.value) {
+                        if let Some(entry) = super::lookup_ident(&doc, p, ident) {
                             if let Entry::Procedure(target) = entry {
                                 // no implementation for predefined procedures
                                 if entry.is_default() {
